@@ -25,6 +25,13 @@ NA = {
 PENDING = {}
 
 CHECKS = {
+ "C02": dict(
+   engine="confluence",
+   category="fault_enumeration",
+   text="Every rule firing of a run is treated as a fault point. For seeded programs (3-10 public-API constructor calls over four semiring families) and seven interpretation settings (eager, lazy/reflect/normalize then reinterpret, sequential, apply_optimizer), the undisturbed run is compared - on the whole finite integer input space and at sample points of real inputs - with (a) every run in which one firing k is declined so that the fall-through chain/reflected term takes its place (all k<=K, or a seeded sample), (b) runs in which one rule function is kept from firing on non-ground operands for the whole run, and (c) the undisturbed run in two other hash worlds. Independently every firing's result is checked against the inputs of the reflected term (no new dependence). Each run is a fresh fork of a pristine world.",
+   design_ref="DESIGN.md section 6 (C02)",
+   note="The value of a replaced term is obtained from funsor itself by another route (other rules, or the same rules on ground instances): a rule wrong on every route passes. Float tolerance rtol 1e-6; carriers respect each semiring's side condition. Decided per sampled program, not for all programs.",
+   technique="deterministic simulation: rule firings as enumerated decline faults, per-rule disable, cross-hash-world agreement"),
  "C17": dict(
    engine="ctxstack",
    category="fault_enumeration",
@@ -62,6 +69,7 @@ def main():
             "add_only": True,
         },
         "engines": [
+            {"name": "confluence", "path": "checks/c02.py", "serves_properties": ["C02"], "kind_free_text": "program executor under a rule-dispatch seam; decline/disable faults; fork per run; cross-world comparison"},
             {"name": "ctxstack", "path": "checks/c17.py", "serves_properties": ["C17"], "kind_free_text": "stack model + exception injection at internal calls (sys.monitoring)"},
         ],
         "checks": checks,
@@ -72,6 +80,6 @@ def main():
     print("wrote MANIFEST.json:", len(checks), "checks")
 
 if __name__ == "__main__":
-    for k in ("C02", "C03", "C07", "C14", "C16", "C20"):
+    for k in ("C03", "C07", "C14", "C16", "C20"):
         PENDING[k] = "not yet claimed at this commit: the simulation engine for it (DESIGN.md section 6) is still being built; not a judgement of applicability."
     main()
